@@ -23,5 +23,9 @@ Definition lin_db_step (cs : list caller) (s : dbstate V) (o : lop) : dbstate V 
 Definition fin_ok (live : live_dump) (disk : disk_dump) (g : N) (s : dbstate V) : bool :=
   live_beq (live_of (kv s)) live && disk_beq (disk_of (kv s)) disk && (gen s =? g).
 
-Definition db_lin_check (cs : list caller) (live : live_dump) (disk : disk_dump) (g : N) (h : list lcall) : bool :=
-  lin_check (lin_db_step cs) result_beq (fin_ok live disk g) start h.
+(* the state at a quiescent point (no call in flight), from the dump taken there *)
+Definition state_of_dump (d : disk_dump) (g : N) : dbstate V :=
+  {| kv := kvs_of_disk d; gen := g; audit_dead := false |}.
+
+Definition db_lin_check (cs : list caller) (s0 : dbstate V) (live : live_dump) (disk : disk_dump) (g : N) (h : list lcall) : bool :=
+  lin_check (lin_db_step cs) result_beq (fin_ok live disk g) s0 h.
